@@ -621,7 +621,7 @@ func runC15(c *Ctx) {
 		nRandom = 20000
 	}
 	r.Space = "Go types built by reflection from 5 leaves (int, float64, string, bool, time.Time) under 9 unary constructors ([]X, [2]X, map[string]X, map[K]X with K rotating over int/uint8/float64/bool/time.Time/int64, *X, struct{f X; n int; opt *X `maybe`; U string}, struct{p *X; M X `maybe`}, []interface{}<X>, map[string]interface{}<X>), every numeric kind and named types as leaf and under each constructor, three fixed value variants per type (small / other values with optional parts absent / empty containers); plus random types of depth <= 5 with 2-4 field structs and random values; plus a fixed list of unsupported / inconsistent inputs"
-	r.Bound = fmt.Sprintf("exhaustive: all types of constructor depth <= %d (4100 types) x 3 variants; random: %d (type, value) draws, seed %d; 40 error inputs x 6 entry points", maxDepth, nRandom, c.Seed)
+
 	r.Rule = "distinct = distinct (Go type, canonical dump of the Go value); non-trivial = the value has at least one container, struct or pointer level (not a bare primitive) or is an error-class input"
 	r.Exhaustive = true
 
@@ -633,6 +633,7 @@ func runC15(c *Ctx) {
 			shapes = append(shapes, k(nl))
 		}
 	}
+	r.Bound = fmt.Sprintf("exhaustive: all %d types of constructor depth <= %d (incl. every numeric kind under each constructor) x 3 value variants, every non-interface type also as a pair through the public API; random: %d (type, 3 values) draws of depth <= 5, seed %d; %d unsupported / inconsistent inputs x 7 entry points", len(shapes), maxDepth, nRandom, c.Seed, len(c15ErrorCases()))
 	for _, s := range shapes {
 		c15Shape(c, s, []int{0, 1, 2}, nil)
 	}
